@@ -279,8 +279,18 @@ func (e *SpecEnv) equal(a, b Val) string {
 	if strings.HasPrefix(a.S, "Slice_") && a.S == b.S {
 		id := sortId(sliceElemSortOf(a.S))
 		vn := "k$q" + fmt.Sprint(e.x.nextQ())
-		return fmt.Sprintf("(and (= (slen_%s %s) (slen_%s %s)) (forall ((%s Int)) (! (=> (and (<= 0 %s) (< %s (slen_%s %s))) (= (select (sarr_%s %s) %s) (select (sarr_%s %s) %s))) :pattern ((select (sarr_%s %s) %s)) :pattern ((select (sarr_%s %s) %s)))))",
-			id, a.T, id, b.T, vn, vn, vn, id, a.T, id, a.T, vn, id, b.T, vn, id, a.T, vn, id, b.T, vn)
+		pats := ""
+		if !strings.Contains(a.T, "(ite ") {
+			pats += fmt.Sprintf(" :pattern ((select (sarr_%s %s) %s))", id, a.T, vn)
+		}
+		if !strings.Contains(b.T, "(ite ") {
+			pats += fmt.Sprintf(" :pattern ((select (sarr_%s %s) %s))", id, b.T, vn)
+		}
+		body := fmt.Sprintf("(=> (and (<= 0 %s) (< %s (slen_%s %s))) (= (select (sarr_%s %s) %s) (select (sarr_%s %s) %s)))", vn, vn, id, a.T, id, a.T, vn, id, b.T, vn)
+		if pats != "" {
+			body = "(! " + body + pats + ")"
+		}
+		return fmt.Sprintf("(and (= (slen_%s %s) (slen_%s %s)) (forall ((%s Int)) %s))", id, a.T, id, b.T, vn, body)
 	}
 	// nil compared with slice
 	if strings.HasPrefix(a.S, "Slice_") && b.T == "0" && b.S == "Int" {
@@ -466,6 +476,20 @@ func (e *SpecEnv) call(n *SCall) Val {
 		v1 := fmt.Sprintf("(select (select %s %s) %s)", x.getHeap(e.st, val), d.T, q)
 		v0 := fmt.Sprintf("(select (select %s %s) %s)", x.getHeap(e.old, val), d.T, q)
 		return Val{T: fmt.Sprintf("(forall ((%s %s)) (=> %s (and (= %s %s) (= %s %s))))", q, idS, guard, h1, h0, v1, v0), S: "Bool"}
+	case "domOf":
+		// domOf(m): the key set of a map as an array value (for prelude functions over sets)
+		m := e.Eval(n.Args[0])
+		mt, ok := m.Ty.Underlying().(*types.Map)
+		if !ok {
+			specFail("domOf of non-map")
+		}
+		dom, _, ks, _ := x.u.mapKeys(mt)
+		return Val{T: "(select " + x.getHeap(e.st, dom) + " " + m.T + ")", S: "(Array " + ks + " Bool)"}
+	case "marked":
+		gk := "ghost.mark." + specSrc(n.Args[0])
+		x.u.regHeap(gk, "(Array Int Bool)")
+		r := e.Eval(n.Args[1])
+		return Val{T: "(select " + x.getHeap(e.st, gk) + " " + r.T + ")", S: "Bool"}
 	case "bigOf":
 		r := e.Eval(n.Args[0])
 		return Val{T: "(select " + x.getHeap(e.st, x.bigKey()) + " " + r.T + ")", S: "Int"}
@@ -511,7 +535,15 @@ func (e *SpecEnv) call(n *SCall) Val {
 		return Val{T: fmt.Sprintf("(sub_%s %s %s %s)", id, vs[0].T, vs[1].T, vs[2].T), S: vs[0].S, Ty: vs[0].Ty}
 	}
 	// predicate / pure macro
-	if p := x.eng.findPred(e.pkg, n.Fun); p != nil {
+	predName := n.Fun
+	if j := strings.Index(predName, "."); j > 0 {
+		if ip := x.importedPkg(e.pkg, predName[:j]); ip != nil {
+			if _, ok := x.eng.preds[ip.PkgPath+"::"+predName[j+1:]]; ok {
+				predName = ip.Name + "." + predName[j+1:]
+			}
+		}
+	}
+	if p := x.eng.findPred(e.pkg, predName); p != nil {
 		if e.depth > 20 {
 			specFail("predicate recursion too deep in %s", n.Fun)
 		}
@@ -684,7 +716,75 @@ func (x *Exec) globalVar(o *types.Var) Val {
 		}
 	}
 	x.globals[o] = v
+	x.globalInit(o, v)
 	return v
+}
+
+// globalInit gives a package-level variable the value of its initialiser when that is a
+// []byte("literal") conversion or a []byte{...} literal of constants and no function of the
+// package assigns the variable (checked syntactically; otherwise nothing is assumed).
+func (x *Exec) globalInit(o *types.Var, v Val) {
+	pkg := x.eng.pkgs[o.Pkg().Path()]
+	if pkg == nil || pkg.TypesInfo == nil || v.S != x.bytesSort() {
+		return
+	}
+	var init ast.Expr
+	assigned := false
+	for _, f := range pkg.Syntax {
+		ast.Inspect(f, func(n ast.Node) bool {
+			switch s := n.(type) {
+			case *ast.ValueSpec:
+				for i, nm := range s.Names {
+					if pkg.TypesInfo.Defs[nm] == o && i < len(s.Values) {
+						init = s.Values[i]
+					}
+				}
+			case *ast.AssignStmt:
+				for _, l := range s.Lhs {
+					if id, ok := l.(*ast.Ident); ok && pkg.TypesInfo.Uses[id] == o {
+						assigned = true
+					}
+					if ix, ok := l.(*ast.IndexExpr); ok {
+						if id, ok := ix.X.(*ast.Ident); ok && pkg.TypesInfo.Uses[id] == o {
+							assigned = true
+						}
+					}
+				}
+			}
+			return true
+		})
+	}
+	if init == nil || assigned {
+		return
+	}
+	var content []byte
+	switch e := init.(type) {
+	case *ast.CallExpr:
+		if len(e.Args) == 1 {
+			if tv, ok := pkg.TypesInfo.Types[e.Args[0]]; ok && tv.Value != nil && tv.Value.Kind() == constant.String {
+				content = []byte(constant.StringVal(tv.Value))
+			}
+		}
+	case *ast.CompositeLit:
+		for _, el := range e.Elts {
+			tv, ok := pkg.TypesInfo.Types[el]
+			if !ok || tv.Value == nil {
+				return
+			}
+			n, _ := constant.Int64Val(constant.ToInt(tv.Value))
+			content = append(content, byte(n))
+		}
+	default:
+		return
+	}
+	if content == nil {
+		return
+	}
+	x.u.fact(fmt.Sprintf("(and (= (slen_Int %s) %d) (not (snil_Int %s)))", v.T, len(content), v.T))
+	for i, b := range content {
+		x.u.fact(fmt.Sprintf("(= (select (sarr_Int %s) %d) %d)", v.T, i, b))
+	}
+	x.u.notes = append(x.u.notes, "package variable "+o.Name()+" taken at its initial value (never assigned in its package)")
 }
 
 func (x *Exec) havocVal(base string, t types.Type) Val {
